@@ -41,7 +41,8 @@ fn cfg(optional: bool, remap: bool) -> nitrogql_config_file::Config {
         // declares the scalar under a temporary local name)
         c.generate.r#type.scalar_types.insert("Date".into(), ScalarTypeConfig::SendReceive(SendReceiveScalarTypeConfig { send: "Date | string".into(), receive: "string".into() }));
     }
-    c
+    // the subject reads it as configuration-file text
+    crate::pipeline::via_config_text(&c)
 }
 
 thread_local! {
